@@ -34,6 +34,9 @@ KINDS = R.SOC_KINDS + R.SOC_KINDS + ['pnorm', 'kl', 'entropy']
 
 
 def gen_case(rng, idx, tier):
+    if rng.random() < 0.06:
+        from rv import matrule
+        return matrule.gen(rng, tier)
     if rng.random() < 0.12:
         # matrix-shaped decision and random variables, bilinear terms in several array
         # spellings, box sets given with broadcast bounds; the reference is a SciPy LP
@@ -43,6 +46,9 @@ def gen_case(rng, idx, tier):
 
 
 def run_case(spec, ctx):
+    if spec.get('kind') == 'matrule':
+        from rv import matrule
+        return matrule.run(spec, ctx, exact=True)
     if spec.get('kind') == 'matrix':
         from rv.props import c15
         res = c15.run_matrix(spec, ctx)
